@@ -896,7 +896,7 @@ def direct_search(ctx, limit=5):
         f = predicate(cell, spec, rhs, left, obs)
         if f:
             key = key_of(cell, spec, obs, f[0])
-            sig = (key["cls"], key["fail"], key["method"])
+            sig = (key["tree"], key["fail"], key["method"], key["kind"])
             if sig in seen:
                 continue
             seen.add(sig)
@@ -979,7 +979,9 @@ def run(ctx):
         if f:
             stats["direct_failures"] += 1
             key = key_of(cell, spec, obs, f[0])
-            sig = (key["cls"], key["fail"], key["method"], key["kind"])
+            # (one report per operator tree x failure kind x path x rhs kind x entry point: a listed finding in one cell must not
+            #  hide a different failure of the same class)
+            sig = (key["tree"], key["fail"], key["method"], key["kind"], key["via"], key["rhsmod"], key["batched"])
             if sig not in seen_fail:
                 seen_fail.add(sig)
                 ctx.violation(dict(replay_of(cell, spec, rhs, left, obs, "property-failure"), what=f[1]), key=key)
